@@ -1400,9 +1400,10 @@ example : (unlisted initState 5 && (5 : Nat) != 0 && ((freshFlow 0).status.liste
 /-- every refined CoreVM step (`Refine.RefinedStep`: outermost `abortFlow` / `finishFlow`; the `EndScope`, `BeginScope`,
     `start_new_flow_instance`-label and effect-free elements of `slideStep`; `StopFlow` / `FinishFlow` processing in all forms
     (`flow_instance_uid=…`, `flow_id=…` with the loop over `flow_id_states`); non-creating `StartFlow` processing; `setFlowStatus`
-    along the status order; `updateActionStatusByEvent` for an admissible action event; `addNewFlowInstance`; `startFlow`) IS a
-    sequence of operations of the Lifetime machine (`abort`, `finish`, `endScope`, `label`, `reactivate`, `frame`, `status`, `event`;
-    at most one except for the `flow_id=…` forms) on the abstraction, or the creation of an isolated instance (`createInst`), or the
+    along the status order; `updateActionStatusByEvent` for an admissible action event; the `_new_action_instance` element of
+    `slideStep`; `addNewFlowInstance`; `startFlow`) IS a sequence of operations of the Lifetime machine (`abort`, `finish`,
+    `endScope`, `label`, `reactivate`, `frame`, `status`, `event`, `newAction`; at most one except for the `flow_id=…` forms and
+    `newAction ; frame`) on the abstraction, or the creation of an isolated instance (`createInst`), or the
     link of an isolated instance to its parent (`linkInst`; creation + link = `IOp.startChild`) -/
 theorem corevm_refined_step_is_op (hν : Function.Injective ν) (hφ : Function.Injective φ) (vm vm' : CoreVM.VM) (hw : Refine.WF vm)
     (h : Refine.RefinedStep ν φ vm vm') :
@@ -1416,8 +1417,8 @@ theorem corevm_refined_step_is_op (hν : Function.Injective ν) (hφ : Function.
           Refine.absVM ν φ vm' = Refine.linkInst (Refine.absVM ν φ vm) c p k)) :=
   Refine.refinedStep_is_op ν φ hν hφ vm vm' hw h
 
-/-- PARTIAL (`corevm_lifetime_invariant` would quantify over ALL steps of `CoreVM.runToCompletion`; the new-action / `Start` /
-    conflict-resolution sites, head movement in general and the decomposition of a whole run into steps are not refined, and the
+/-- PARTIAL (`corevm_lifetime_invariant` would quantify over ALL steps of `CoreVM.runToCompletion`; the `Start` / conflict-resolution
+    sites, head movement in general and the decomposition of a whole run into steps are not refined, and the
     action clauses do not transfer because `absVM` forgets the outgoing events): the hierarchy part of the lifetime
     invariant — `FlowInv` (children form, restarted instances under their reference instance, main flow a root) and `LinkInv` (every
     listening instance is listed by its parent) — holds for the abstraction along every sequence of refined CoreVM steps. -/
